@@ -13,7 +13,7 @@ import ast
 from typing import Dict, List, Optional
 
 from ..core import AnalysisError, Loc, Report, Source, norm
-from ..pyfront import Program, body_without_docstring, param_names, self_attr
+from ..pyfront import Program, body_without_docstring, const_value, param_names, self_attr
 from ..guards import atoms
 from ..normalize import canon, flat
 from ..resolve import Resolver, split_atom
@@ -22,6 +22,20 @@ from ..selftest import Edit
 ID = "C18"
 W = "jellyfysh/event_handler/walker.py"
 CV = "jellyfysh/event_handler/abstracts/cell_veto_event_handler.py"
+
+
+def _replace(root: ast.AST, target: ast.AST, by: ast.AST) -> ast.AST:
+    """copy of root with the node `target` replaced by `by`"""
+    import copy as _copy
+    if root is target:
+        return _copy.deepcopy(by)
+    new = _copy.copy(root)
+    for field, value in ast.iter_fields(root):
+        if isinstance(value, list):
+            setattr(new, field, [_replace(v, target, by) if isinstance(v, ast.AST) else v for v in value])
+        elif isinstance(value, ast.AST):
+            setattr(new, field, _replace(value, target, by))
+    return new
 
 
 def analyse(src: Source) -> List[Report]:
@@ -98,18 +112,38 @@ def analyse(src: Source) -> List[Report]:
                 and c.func.attr == "append" and isinstance(c.func.value, ast.Name) and c.args and norm(c.args[0]) == what]
         return hits[0] if len(hits) == 1 else None
     split_test = None
+
+    def classify(test: ast.AST, v: str) -> Optional[str]:
+        at = atoms(RB.res(test, (v,)))
+        sp = split_atom(at[0]) if len(at) == 1 else None
+        if sp is None:
+            return None
+        l, op, r = sp
+        if (l, r) == (mean, f"{v}.rate") and op == "<":        # mean < rate
+            return "large"
+        if (l, r) == (f"{v}.rate", mean) and op == "<=":       # rate <= mean
+            return "small"
+        return None
     for lp in split:
         v = norm(lp.target)
         for t in [x for x in lp.body if isinstance(x, ast.If)]:
-            at = atoms(t.test)
-            sp = split_atom(at[0]) if len(at) == 1 else None
-            if sp is None:
-                continue
-            l, op, r = sp
-            if (l, r) == (mean, f"{v}.rate") and op in ("<",):          # mean < rate : body = large
+            k = classify(t.test, v)
+            if k == "large":
                 large, small, split_test = appended_list(t.body, v), appended_list(t.orelse, v), t.test
-            elif (l, r) == (f"{v}.rate", mean) and op in ("<=",):        # rate <= mean : body = small
+            elif k == "small":
                 small, large, split_test = appended_list(t.body, v), appended_list(t.orelse, v), t.test
+    if not (small and large):
+        # two filtering comprehensions over the items: [x for x in items if <large test>] / [... if <small test>]
+        for a_ in ast.walk(build):
+            if isinstance(a_, ast.Assign) and isinstance(a_.targets[0], ast.Name) and isinstance(a_.value, ast.ListComp) \
+                    and len(a_.value.generators) == 1 and len(a_.value.generators[0].ifs) == 1 \
+                    and norm(a_.value.elt) == norm(a_.value.generators[0].target):
+                g_ = a_.value.generators[0]
+                k = classify(g_.ifs[0], norm(g_.target))
+                if k == "large":
+                    large, split_test = a_.targets[0].id, g_.ifs[0]
+                elif k == "small":
+                    small = a_.targets[0].id
     rep.ob("R18.2-split-by-mean", bool(small and large), locb, split_test if split_test is not None else "split",
            "items must be split into those above the mean rate (large) and the others (small)")
     if not (small and large):
@@ -159,17 +193,27 @@ def analyse(src: Source) -> List[Report]:
     rep.ob("R18.2-pairing-loop", okp, locb, "while small and large: pair", "the pairing loop was not recognised")
     flushed = set()
     for l in flush:
-        which = small if mentions(l.test, small) else large if mentions(l.test, large) else None
+        # which list(s) this loop drains: named in its test, or the variable of an enclosing `for v in (small, large)`
+        drained: List[Tuple[str, str]] = []    # (list drained, name used for it in the loop)
+        for which in (small, large):
+            if mentions(l.test, which):
+                drained.append((which, which))
+        if not drained:
+            for outer_ in ast.walk(build):
+                if isinstance(outer_, ast.For) and any(x is l for x in ast.walk(outer_)) and isinstance(outer_.target, ast.Name) \
+                        and isinstance(outer_.iter, (ast.Tuple, ast.List)) and mentions(l.test, outer_.target.id):
+                    drained = [(norm(e_), outer_.target.id) for e_ in outer_.iter.elts if norm(e_) in (small, large)]
         apps = [c for st in l.body for c in ast.walk(st) if isinstance(c, ast.Call) and norm(c.func) == f"self.{table_attr}.append"]
         ok = False
-        if which is not None and len(apps) == 1 and apps[0].args:
-            row = RB.res(apps[0].args[0])
+        if drained and len(apps) == 1 and apps[0].args:
+            used = drained[0][1]
+            row = RB.res(apps[0].args[0], (used,))
             ok = isinstance(row, ast.Tuple) and len(row.elts) == 1 and isinstance(row.elts[0], ast.Call) and len(row.elts[0].args) == 2 \
-                and norm(row.elts[0].args[0]) == f"{which}.pop().item" and norm(row.elts[0].args[1]) == mean
+                and norm(row.elts[0].args[0]) == f"{used}.pop().item" and norm(row.elts[0].args[1]) == mean
         rep.ob("R18.2-flush-rows", ok, Loc(W, l.lineno, locb.qual), apps[0] if apps else l.test,
                "leftover items must each get a one-entry row with the mean rate")
         if ok:
-            flushed.add(which)
+            flushed.update(d for d, _ in drained)
     rep.ob("R18.2-both-flushed", flushed == {small, large}, locb, f"flushed lists {sorted(flushed)}",
            "both the small and the large list must be emptied into one-entry rows (otherwise cells are lost from the table)")
     # ---- R18.3 -------------------------------------------------------------------------------------------------------
@@ -178,47 +222,82 @@ def analyse(src: Source) -> List[Report]:
     RS = Resolver(sample)
     rows = [s_ for s_ in ast.walk(sample) if isinstance(s_, ast.Assign) and isinstance(s_.targets[0], ast.Name)
             and isinstance(s_.value, ast.Call) and norm(s_.value.func) == "random.choice"]
-    coins = [s_ for s_ in sb if isinstance(s_, ast.If)]
     ok = False
-    if len(rows) == 1 and len(coins) == 1:
+    if len(rows) == 1:
         row = norm(rows[0].targets[0])
         ok_row = norm(rows[0].value) == f"random.choice(self.{table_attr})"
-        t = coins[0]
-        at = atoms(RS.res(t.test, (row,)))
-        sp = split_atom(at[0]) if len(at) == 1 else None
         uniform = (f"random.uniform(0.0, {mean})", f"random.uniform(0, {mean})")
-        heads = None       # statements executed when uniform(0, mean) <= row[0].rate
-        rest = sb[sb.index(t) + 1:]
-        if sp is not None:
+
+        def coin_side(test: ast.AST) -> Optional[bool]:
+            """True: the test holds exactly for heads (uniform(0, mean) <= row[0].rate); False: exactly for tails; None: no coin"""
+            at = atoms(RS.res(test, (row,)))
+            sp = split_atom(at[0]) if len(at) == 1 else None
+            if sp is None:
+                return None
             l, op, r = sp
             if l in uniform and r == f"{row}[0].rate" and op in ("<=", "<"):
-                heads, tails = t.body, (t.orelse or rest)
-            elif r in uniform and l == f"{row}[0].rate" and op in ("<", "<="):
-                heads, tails = (t.orelse or rest), t.body
-
-        def returned(stmts) -> Optional[str]:
-            rs = [x for st in stmts for x in ast.walk(st) if isinstance(x, ast.Return)]
-            return RS.text(rs[0].value, (row,)) if len(rs) == 1 and rs[0].value is not None else None
+                return True
+            if r in uniform and l == f"{row}[0].rate" and op in ("<", "<="):
+                return False
+            return None
+        # the coin as a statement (`if coin: return a else: return b`) or as a conditional expression inside the returned value
+        outcomes: Dict[bool, Optional[str]] = {}
+        coin_node = None
+        for t in [s_ for s_ in sb if isinstance(s_, ast.If)]:
+            side = coin_side(t.test)
+            if side is None:
+                continue
+            coin_node = t.test
+            rest = sb[sb.index(t) + 1:]
+            for branch, heads in ((t.body, side), ((t.orelse or rest), not side)):
+                rs = [x for st in branch for x in ast.walk(st) if isinstance(x, ast.Return)]
+                outcomes[heads] = RS.text(rs[0].value, (row,)) if len(rs) == 1 and rs[0].value is not None else None
+        if coin_node is None:
+            rets = [x for x in ast.walk(sample) if isinstance(x, ast.Return) and x.value is not None]
+            if len(rets) == 1:
+                rv = RS.res(rets[0].value, (row,))
+                conds = [x for x in ast.walk(rv) if isinstance(x, ast.IfExp)]
+                if len(conds) == 1 and coin_side(conds[0].test) is not None:
+                    side = coin_side(conds[0].test)
+                    coin_node = conds[0].test
+                    for pick, heads in ((conds[0].body, side), (conds[0].orelse, not side)):
+                        class Sub(ast.NodeTransformer):
+                            def visit_IfExp(self, node):
+                                return pick if node is conds[0] else self.generic_visit(node)
+                        import copy as _copy
+                        outcomes[heads] = norm(Sub().visit(_copy.deepcopy(rv))) if False else norm(_replace(rv, conds[0], pick))
         rep.ob("R18.3-uniform-row", ok_row, locs, rows[0], "the row must be chosen uniformly from the table")
-        rep.ob("R18.3-coin", heads is not None, locs, t.test, "the coin must compare uniform(0, mean) with the first entry's rate")
-        if heads is not None:
-            rets = returned(heads) == f"{row}[0].item" and returned(tails) == f"{row}[1].item"
-            rep.ob("R18.3-coin-outcomes", bool(rets), locs, t, "heads selects the first entry's cell, tails the second entry's")
+        rep.ob("R18.3-coin", coin_node is not None, locs, coin_node if coin_node is not None else "coin",
+               "the coin must compare uniform(0, mean) with the first entry's rate")
+        if coin_node is not None:
+            good = outcomes.get(True) == f"{row}[0].item" and outcomes.get(False) == f"{row}[1].item"
+            rep.ob("R18.3-coin-outcomes", bool(good), locs, f"heads -> {outcomes.get(True)}, tails -> {outcomes.get(False)}",
+                   "heads selects the first entry's cell, tails the second entry's")
         ok = True
     rep.ob("R18.3-sample-shape", ok, locs, "row = choice(table); coin", "sampling idiom not recognised")
     # ---- R18.4 cell-veto handler -----------------------------------------------------------------------------------------
     cv = prog.class_named("CellVetoEventHandler")
     if "send_event_time" not in cv.methods or "initialize" not in cv.methods:
         raise AnalysisError("CellVetoEventHandler.send_event_time / initialize not found")
-    st = canon(prog, cv, cv.methods["send_event_time"], helpers=False)
-    ini = canon(prog, cv, cv.methods["initialize"], helpers=False)
+    st = canon(prog, cv, cv.methods["send_event_time"])
+    ini = canon(prog, cv, cv.methods["initialize"])
     locv = Loc(CV, st.lineno, "CellVetoEventHandler.send_event_time")
     RI, RT = Resolver(ini), Resolver(st)
     # initialize: the bound table stores (upper, -lower) per far cell and direction; each walker table is built per direction from
     # one component of it, clipped at zero
+    def bounds_table_of(recv: ast.AST) -> Optional[str]:
+        """the self attribute whose entry `recv` is: self.T[k] directly, or a local list that is stored as self.T[k] = local"""
+        if isinstance(recv, ast.Subscript) and self_attr(recv.value):
+            return self_attr(recv.value)
+        if isinstance(recv, ast.Name):
+            for a_ in ast.walk(ini):
+                if isinstance(a_, ast.Assign) and isinstance(a_.value, ast.Name) and a_.value.id == recv.id \
+                        and isinstance(a_.targets[0], ast.Subscript) and self_attr(a_.targets[0].value):
+                    return self_attr(a_.targets[0].value)
+        return None
     tup = [n for n in ast.walk(ini) if isinstance(n, ast.Call) and isinstance(n.func, ast.Attribute) and n.func.attr == "append"
-           and isinstance(n.func.value, ast.Subscript) and self_attr(n.func.value.value) and n.args and isinstance(n.args[0], ast.Tuple)]
-    bounds_attr = self_attr(tup[0].func.value.value) if len(tup) == 1 else None
+           and bounds_table_of(n.func.value) and n.args and isinstance(n.args[0], ast.Tuple)]
+    bounds_attr = bounds_table_of(tup[0].func.value) if len(tup) == 1 else None
     okc = False
     if len(tup) == 1 and len(tup[0].args[0].elts) == 2:
         e0, e1 = tup[0].args[0].elts
@@ -245,9 +324,10 @@ def analyse(src: Source) -> List[Report]:
                 src_ = [x for x in rate.args if not (isinstance(x, ast.Constant))]
                 if len(zero) == 1 and len(src_) == 1:
                     e = src_[0]
-                    if isinstance(e, ast.Subscript) and isinstance(e.slice, ast.Constant) and isinstance(e.value, ast.Subscript) \
+                    comp_ = const_value(prog, cv, e.slice) if isinstance(e, ast.Subscript) else None
+                    if isinstance(e, ast.Subscript) and isinstance(comp_, int) and isinstance(e.value, ast.Subscript) \
                             and isinstance(e.value.value, ast.Subscript) and self_attr(e.value.value.value) == bounds_attr:
-                        comp = e.slice.value
+                        comp = comp_
                         ok = norm(e.value.slice) == d and comp in (0, 1)
         if ok:
             comp_of_list[lst] = comp
@@ -272,8 +352,8 @@ def analyse(src: Source) -> List[Report]:
         def facts(stmts):
             w = [(norm(a.targets[0]), self_attr(a.value.value), RT.text(a.value.slice)) for a in stmts if isinstance(a, ast.Assign)
                  and isinstance(a.value, ast.Subscript) and self_attr(a.value.value) in comp_of_attr]
-            i = [(norm(a.targets[0]), a.value.value) for a in stmts if isinstance(a, ast.Assign) and isinstance(a.value, ast.Constant)
-                 and isinstance(a.value.value, int) and not isinstance(a.value.value, bool)]
+            i = [(norm(a.targets[0]), const_value(prog, cv, a.value)) for a in stmts if isinstance(a, ast.Assign) and isinstance(a.targets[0], ast.Name)
+                 and isinstance(const_value(prog, cv, a.value), int) and not isinstance(const_value(prog, cv, a.value), bool)]
             return (w[0] if len(w) == 1 else None, i[0] if len(i) == 1 else None)
         at = atoms(b.test)
         sp = split_atom(at[0]) if len(at) == 1 else None
@@ -320,11 +400,13 @@ def analyse(src: Source) -> List[Report]:
           and isinstance(a.value, ast.BinOp)]
     okq = False
     if len(be) == 1 and walker_var:
-        sc = [a for a in ast.walk(st) if isinstance(a, ast.Assign) and isinstance(a.targets[0], ast.Name) and norm(a.value) == f"{walker_var}.sample_cell()"]
+        sc = [a for a in ast.walk(st) if isinstance(a, ast.Assign) and isinstance(a.targets[0], ast.Name)
+              and RT.text(a.value, keep) == f"{walker_var}.sample_cell()"]
         if len(sc) == 1:
             cellv = norm(sc[0].targets[0])
             fs = RT.factors(be[0].value, keep + (cellv,))
             okq = sorted(fs) == sorted([charge_var, f"self.{bounds_attr}[{cellv}][{dir_txt}][{index_var}]"])
+
     rep.ob("R18.4-bound-at-sampled-cell", okq, locv, be[0] if be else "bounding event rate",
            "the confirmation bound must be the stored bound of the sampled cell, the direction of motion and the chosen component, "
            "times the charge factor")
